@@ -9,6 +9,7 @@ continuous piecewise-linear function of the model (P2) and reload must not chang
 ("invariant at a hook").
 """
 import json
+import math
 
 from vf import core
 
@@ -20,7 +21,8 @@ NT_RULE = ('history = initial (breakpoints, slopes) + <=6 insert/pop/reload oper
            'canonical JSON of the history')
 REQUIRED_ORACLES = ['P1', 'P2', 'P3', 'P0', 'INV']
 REQUIRED_CLASSES = ['insert:below_second', 'insert:between', 'insert:equal', 'insert:above_last',
-                    'pop:0', 'pop:inner', 'pop:last', 'pop:negative_index', 'bps:int_typed', 'slope:zero', 'reload', 'reload_dict', 'eval:on_break', 'eval:beyond_last']
+                    'pop:0', 'pop:inner', 'pop:last', 'pop:negative_index', 'bps:int_typed', 'slopes:all_int_fractional_breakpoints',
+                    'insert:just_below_existing', 'insert:just_above_existing', 'slope:zero', 'reload', 'reload_dict', 'eval:on_break', 'eval:beyond_last']
 REQUIRED_PROBES = ['PiecewiseCovEffect.insert', 'PiecewiseCovEffect.pop',
                    'PiecewiseCovEffect._set_intercepts', 'PiecewiseCovEffect.get_UoRT']
 ASSUMPTIONS = ['breakpoints in [0,1], first one 0, initial list strictly ascending; pop index in '
@@ -77,6 +79,12 @@ def directed(tier):
     D.append({'intervals': [0], 'slopes': [3.3], 'ops': [['insert', 1, 4.7], ['insert', 0.5, 1.1], ['pop', 1]], 'xs': ev, 'Ts': [300.0]})
     D.append(dict(base, ops=[['insert', 0.8, 0.0], ['insert', 0.45, 0], ['pop', -1], ['pop', -2]], xs=ev, Ts=[300.0]))
     D.append(dict(base, ops=[['insert', 0.2, 1.0], ['reload_dict'], ['pop', 2], ['insert', 0.9, 4.0]], xs=ev, Ts=[300.0]))
+    D.append({'intervals': [0.0, 0.25, 0.55], 'slopes': [2, -3, 5], 'ops': [['insert', 0.4, 7], ['reload'], ['pop', 1]],
+              'xs': ev, 'Ts': [300.0]})
+    D.append(dict(base, ops=[['insert', 0.7 - 0.4, 5.0]], xs=ev + [0.7 - 0.4], Ts=[300.0]))   # 0.29999999999999993
+    D.append(dict(base, ops=[['insert', 0.6 - 3e-6, 5.0], ['reload']], xs=ev + [0.6 - 3e-6, 0.6 - 1e-6], Ts=[300.0]))
+    D.append(dict(base, ops=[['insert', math.nextafter(0.6, 1.0), 5.0], ['insert', math.nextafter(0.3, 0.0), -2.0]],
+                  xs=ev, Ts=[300.0]))
     return D
 
 
@@ -90,13 +98,25 @@ def generate(rng, tier):
         slopes = [_r(rng, -100, 100, 2) for _ in bps]
     if rng.random() < 0.15:
         slopes[rng.randrange(len(slopes))] = 0.0
+    int_slopes = rng.random() < 0.12
+    if int_slopes:
+        # every slope a Python int (whole kcal/mol per ML) while the breakpoints are fractional
+        slopes = [rng.randint(-100, 100) for _ in bps]
     cur = list(bps)
     ops = []
     for _ in range(rng.randint(0, 6)):
         kind = rng.choices(['insert', 'pop', 'reload', 'reload_dict'], [5, 3, 1, 1])[0]
         if kind == 'insert':
-            where = rng.choice(['below_second', 'between', 'equal', 'above_last', 'any'])
-            if where == 'below_second' and len(cur) > 1 and cur[1] > 0.002:
+            where = rng.choice(['below_second', 'between', 'equal', 'above_last', 'any', 'near_existing'])
+            if where == 'near_existing':
+                # a hair below / above an existing breakpoint (0.7 - 0.4 next to 0.3): NOT equal to it
+                b0 = rng.choice(cur)
+                cands = [math.nextafter(b0, 2.0), b0 + 1e-9, b0 * (1 + 3e-6) + 1e-12, b0 + 1e-6]
+                if b0 > 0:
+                    cands += [math.nextafter(b0, 0.0), b0 - 1e-9, b0 * (1 - 3e-6), b0 - min(1e-6, b0 / 2),
+                              b0 * (1 - 1e-12)]
+                x = rng.choice([c for c in cands if 0 < c <= 1.0 and c not in cur] or [b0])
+            elif where == 'below_second' and len(cur) > 1 and cur[1] > 0.002:
                 x = _r(rng, 0.001, cur[1] - 0.001)
             elif where == 'between' and len(cur) > 2:
                 k = rng.randint(1, len(cur) - 2)
@@ -112,7 +132,8 @@ def generate(rng, tier):
                 x = _r(rng, 0.0, 1.0)
             if isinstance(bps[0], int) and rng.random() < 0.6:
                 x = 1                      # int-typed insertion at full coverage
-            ops.append(['insert', x, rng.choice([_r(rng, -100, 100, 2)] * 5 + [0.0, 0])])
+            ops.append(['insert', x, rng.randint(-100, 100) if (int_slopes and rng.random() < 0.85) else
+                        rng.choice([_r(rng, -100, 100, 2)] * 5 + [0.0, 0])])
             cur = sorted(cur + [x])
         elif kind == 'pop':
             i = rng.randint(0, len(cur) - 1)
@@ -223,6 +244,9 @@ def run_case(spec, ctx):
     pairs = list(zip(spec['intervals'], spec['slopes']))
     if all(isinstance(b, int) for b in spec['intervals']):
         ctx.cls('bps:int_typed')
+    if len(spec['slopes']) >= 2 and all(isinstance(sl, int) for sl in spec['slopes']) and \
+            any(b != int(b) for b in spec['intervals']):
+        ctx.cls('slopes:all_int_fractional_breakpoints')
     if any(sl == 0 for sl in spec['slopes']) or any(o[0] == 'insert' and o[2] == 0 for o in spec['ops']):
         ctx.cls('slope:zero')
     obj = ctx.call('P1', {'after': 'init'}, PiecewiseCovEffect, name_i='A(S)', name_j='B(S)',
@@ -249,6 +273,9 @@ def run_case(spec, ctx):
             else:
                 where = 'between'
             ctx.cls('insert:' + where)
+            for b_ in bps:
+                if x != b_ and abs(x - b_) <= 1e-8 + 1e-5 * abs(b_):
+                    ctx.cls('insert:just_below_existing' if x < b_ else 'insert:just_above_existing')
             r = ctx.call('P1', {'after': 'insert:' + where}, obj.insert, x, s)
             if r is core.NOVALUE:
                 return
